@@ -423,6 +423,87 @@ def r6_cardinality(chk, prog):
     chk.require(n >= 8, 'only %d list-splitting assign() loops found' % n)
 
 
+def r9_constraint_scans(chk, prog):
+    """the bookkeeping of requires/excludes visits every stored entry: no early normal exit from the
+    scan loops; a matching 'excluded' entry throws, a matching 'required' entry is erased; at the end
+    any remaining 'required' entry throws"""
+    def enum_cond(cfg, name):
+        res = []
+        for bid, cond in cfg.cond_blocks():
+            c = strip_all_casts(cond) if cond else None
+            if c and c.get('k') == 'BinaryOperator' and c.get('op') in ('==', '!=') and any(
+                    x.get('k') == 'DeclRefExpr' and x.get('ref', {}).get('dk') == 'EnumConstant' and
+                    x['ref'].get('q', '').endswith('Constraint::' + name) for x in walk(c)):
+                res.append((bid, 0 if c['op'] == '==' else 1))
+        return res
+
+    def no_early_exit(f, loop):
+        cfg = f.cfg
+        h = loop_header(cfg, loop)
+        body = cfg.succ[h][0]
+        seen = cfg.reach((body, 0), lambda pos, e: pos[0] == h)
+        off = []
+        if any(('exit_from', p) in seen for p in cfg.pred[cfg.exit] if cfg.exit_kind(p) == 'return'):
+            off.append('the scan can return before all entries were visited')
+        out = cfg.succ[h][1]
+        if out is not None and out != cfg.exit and (out, 0) in seen:
+            off.append('the scan can be left by break before all entries were visited')
+        return off
+
+    f = prog.one('celma::prog_args::detail::ConstraintContainer', 'argumentIdentified')
+    cfg = f.cfg
+    loops = loops_in(f)
+    chk.require(loops, 'argumentIdentified: scan loop not found')
+    for loop in loops:
+        off = no_early_exit(f, loop)
+        chk.check(not off, 'R9', f.name, 'every stored constraint on the identified key is processed', f.loc(loop),
+                  '; '.join(off))
+    exc = enum_cond(cfg, 'excluded')
+    chk.require(exc, 'argumentIdentified: test for Constraint::excluded not found')
+    for bid, br in exc:
+        tgt = cfg.succ[bid][br]
+        seen = cfg.reach((tgt, 0))
+        ok = not any(p[0] == 'exit_from' and cfg.exit_kind(p[1]) == 'return' for p in seen) and \
+            not any(p[0] == loop_header(cfg, l) for l in loops for p in seen if p[0] != 'exit_from')
+        chk.check(ok, 'R9', f.name, 'an argument that is excluded by a used argument ends in an exception', f.loc())
+    req = enum_cond(cfg, 'required')
+    chk.require(req, 'argumentIdentified: test for Constraint::required not found')
+    for bid, br in req:
+        tgt = cfg.succ[bid][br]
+        er = [c for c in f.calls() if field_name(object_of(c)) == 'mConstraints' and 'erase' in c.get('callee', '')]
+        ok = bool(er) and any(cfg.guarded_by_edge(cfg.position(c), bid, br) for c in er)
+        chk.check(ok, 'R9', f.name, 'a fulfilled requirement is removed', f.loc())
+    # early return only when nothing is stored
+    f2 = prog.one('celma::prog_args::detail::ConstraintContainer', 'checkRequired')
+    cfg2 = f2.cfg
+    loops2 = [l for l in loops_in(f2) if any(mentions_field(hh, 'mConstraints') for hh in children(l)[:-1])]
+    chk.require(loops2, 'checkRequired: loop over mConstraints not found')
+    off = no_early_exit(f2, loops2[0])
+    h2 = loop_header(cfg2, loops2[0])
+    bypass = cfg2.can_reach_exit(cfg2.entry_pos(), lambda pos, e: pos[0] == h2)
+    req2 = enum_cond(cfg2, 'required')
+    throws = bool(req2)
+    for bid, br in req2:
+        tgt = cfg2.succ[bid][br]
+        seen = cfg2.reach((tgt, 0))
+        if any(p[0] == 'exit_from' and cfg2.exit_kind(p[1]) == 'return' for p in seen) or \
+                any(p[0] == h2 for p in seen if p[0] != 'exit_from'):
+            throws = False
+    chk.check(not off and not bypass and throws, 'R9', f2.name,
+              'every requirement that is still open at the end ends in an exception', f2.loc(),
+              '; '.join(off + (['the loop can be bypassed'] if bypass else []) +
+                        ([] if throws else ['an open requirement does not throw'])))
+    # addConstraint: every listed argument gets an entry unless the same constraint is already stored
+    f3 = prog.one('celma::prog_args::detail::ConstraintContainer', 'addConstraint')
+    cfg3 = f3.cfg
+    tl = element_loops(f3)
+    chk.require(tl, 'addConstraint: token loop not found')
+    off = no_early_exit(f3, tl[0])
+    adds = [c for c in f3.calls() if field_name(object_of(c)) == 'mConstraints' and callee_is(c, 'addArgument')]
+    chk.check(not off and bool(adds), 'R9', f3.name, 'a constraint is recorded for every listed argument', f3.loc(),
+              '; '.join(off) or 'no store into mConstraints')
+
+
 def run(chk):
     prog, units = rules.prog_args_program()
     chk.units = units
@@ -441,11 +522,13 @@ def run(chk):
     chk.rule('R4', 'check() on every path / every list element of every value-taking assign()', 20)
     chk.rule('R5', 'unknown element / missing value end in an exception', 3)
     chk.rule('R6', 'cardinality counted for every command-line value', 10)
+    chk.rule('R9', 'requires/excludes bookkeeping scans every stored constraint', 5)
     r1_end_checks(chk, prog)
     r2_identification(chk, prog)
     r3_canonical_key(chk, prog)
     r4_check_before_convert(chk, prog)
     r5_unknown(chk, prog)
     r6_cardinality(chk, prog)
+    r9_constraint_scans(chk, prog)
     from . import c02_shapes
     c02_shapes.run(chk, prog)
